@@ -2,6 +2,7 @@ import MlModel.Lemmas.PipeAggResult
 import MlModel.Lemmas.PipeAggInst
 import MlModel.Lemmas.PipeAggExtra
 import MlModel.Lemmas.PipeAggDtype
+import MlModel.Lemmas.PipeAggCarry
 /-!
 # C02 — pipeline aggregation and slicing equal a brute-force group-by
 
@@ -46,6 +47,12 @@ part of the model (`Except`) and is tied to the code by the correspondence.
 * `C02_run_no_key_error`     started from `create_state`, `update_state` never takes its `KeyError` branch: the stream
                             fails exactly when, and with the error with which, the first failing batch does
 * `C02_builder_wf`           a pipeline that passes the builder's duplicate checks is well-formed (`P.WF`)
+* `C02_carried_state`, `C02_carried_state_rest`, `C02_init_keeps_every_key`, `C02_update_state_fold`,
+  `C02_carried_state_chain`, `C02_carried_state_slices`  (round 10) an aggregation state with DYNAMIC keys handed back to
+                            the code (`iterate(rest, state=prev.agg_state)`, folding `ChainedRunner.update_state`, the union
+                            state of a chain): `_RunnerIterator.__init__`'s filter keeps EVERY entry of a state the runner
+                            produced — un-sliced or per-slice — so a stream consumed in any number of carried steps reports
+                            exactly what one pass reports, and every theorem above holds for it verbatim
 * `C02_statM_lawful`, `C02_decCols_rowWise`, `C02_decCols_rowWiseRepl`, `C02_decField_rowWise`  the concrete aggregate /
                             decoders of the tie satisfy the hypotheses (non-vacuity)
 -/
@@ -504,6 +511,83 @@ theorem C02_decCols_rowWiseReplOn (r : Scalar) :
 tree.py:181-189) is row-wise as well -/
 theorem C02_decField_rowWise (k : String) : RowWise (decField k) := decField_rowWise k
 
+/-! ## Carried-in aggregation states (`Model/PipeAggCarry.lean`)
+
+A sliced aggregation state has dynamic keys.  When it is handed back — `iterate(rest, state=prev.agg_state)`,
+`ChainedRunner.update_state(state, batch)` folded over the batches — `_RunnerIterator.__init__` filters it by
+`k.metrics in runner.agg_fns`.  The seeded regression `C02-m6` (look the keys `MetricKey(output_key)` up instead)
+keeps the un-sliced entries only: `Witness/C02.lean: C02_carried_unsliced_only_witness`. -/
+
+/-- **`__init__` keeps EVERY key of a state this runner produced**, whether `create_state()` made it or
+`update_state` added it for a slice value that showed up in some batch. -/
+theorem C02_init_keeps_every_key {P : Pipeline X S Rv} {xs : List Batch} {st : State S}
+    (h : run P xs = .ok st) : initFilter P st = st ∧ startState P (some st) = st :=
+  ⟨initFilter_of_owned (owned_run h), startState_owned (owned_run h) (run_nil_createState h)⟩
+
+/-- **Running the rest of the stream from a carried-in state = running the whole stream**: the whole
+state map, hence every output key × every slice key (and the same failure, if a batch of the rest fails). -/
+theorem C02_carried_state_rest {P : Pipeline X S Rv} {xs : List Batch} {st : State S}
+    (h : run P xs = .ok st) (ys : List Batch) :
+    iterateWith P (some st) ys = run P (xs ++ ys) ∧
+      ∀ st', iterateWith P (some st) ys = .ok st' →
+        ∀ mk, AList.get? st' mk = (run P (xs ++ ys)).toOption.bind (AList.get? · mk) := by
+  have e : iterateWith P (some st) ys = run P (xs ++ ys) := by
+    rw [iterateWith_run h]
+    unfold run at h ⊢
+    rw [runFrom_append, h]
+  refine ⟨e, fun st' h' mk => ?_⟩
+  rw [← e, h']; rfl
+
+/-- **A stream consumed in any number of carried steps** (`iterate(part₀)`, then
+`iterate(partᵢ, state=previous.agg_state)`) reports exactly what ONE `iterate` over the whole stream
+reports — same keys, same values, same error — for every pipeline, every stream, every way of cutting
+it (empty parts, a slice value seen only before / only after a hand-over included).  Every theorem of
+this file about `aggResult P bs` therefore holds for the carried run (`C02_carried_state_slices`). -/
+theorem C02_carried_state (P : Pipeline X S Rv) (parts : List (List Batch)) :
+    carriedResult P parts = aggResult P parts.flatten := by
+  unfold carriedResult aggResult
+  rw [carried_eq_run]
+  cases P.validate with
+  | error e => rfl
+  | ok u => cases run P parts.flatten <;> rfl
+
+/-- folding `ChainedRunner.update_state` over the batches from `create_state()` and reading
+`get_result(state)` = one pass (a new iterator is built from the carried state for EVERY batch) -/
+theorem C02_update_state_fold (P : Pipeline X S Rv) (bs : List Batch) :
+    foldResult P bs = aggResult P bs := by
+  unfold foldResult aggResult
+  rw [foldUpdate_eq_run]
+  cases P.validate with
+  | error e => rfl
+  | ok u => cases run P bs <;> rfl
+
+/-- The state of a CHAINED runner is the union of its stages' states and every stage is handed the
+whole union: each stage takes back exactly its own state — per-slice entries included — wherever it
+sits in the chain, provided the stages' output-key tuples are distinct. -/
+theorem C02_carried_state_chain {P : Pipeline X S Rv} (qs₁ qs₂ : List (Pipeline X S Rv × State S))
+    {xs : List Batch} {st : State S} (h : run P xs = .ok st)
+    (h₁ : ∀ q ∈ qs₁, Owned q.1 q.2 ∧ OutsDisjoint P q.1)
+    (h₂ : ∀ q ∈ qs₂, Owned q.1 q.2 ∧ OutsDisjoint P q.1) :
+    initFilter P ((qs₁.map (·.2)).flatten ++ st ++ (qs₂.map (·.2)).flatten) = st :=
+  initFilter_chain qs₁ qs₂ (owned_run h) h₁ h₂
+
+/-- `C02_slices` for a carried run: the per-slice entry is the one-shot aggregate of exactly the rows of
+the WHOLE stream (all parts) that belong to the slice. -/
+theorem C02_carried_state_slices {P : Pipeline X S Rv} (hWF : P.WF) {parts : List (List Batch)} {res : Result Rv}
+    (hrun : carriedResult P parts = .ok res) {a : Agg X S Rv} (ha : a ∈ P.aggs) (hns : a.noSlice = false)
+    {Eqv : S → S → Prop} (hL : Lawful a.m Eqv) (hdec : RowWise a.dec)
+    {sl : Slicer} (hsl : sl ∈ P.slicers) {f : List Val → Except ErrKind (List (List Int))}
+    (hfn : sl.fn = .rows f) (hrep : sl.replace = none) (v : List Int) :
+    ∃ rowss, mapE a.rowsOf parts.flatten = .ok rowss ∧
+      ∀ i (hi : i < a.out.length),
+        AList.get? res ⟨a.out[i], ⟨sl.name, v⟩⟩ =
+          if ∃ b ∈ parts.flatten, ∃ row ∈ sl.featRows b, inSlice f v row = true then
+            a.outputAt (a.m.ofBatch
+              (((parts.flatten.zip rowss).map fun p => groupRows f v (sl.featRows p.1) p.2).flatten)) i
+          else none :=
+  C02_slices hWF (by rw [← C02_carried_state]; exact hrun) ha hns hL hdec hsl hfn hrep v
+
+
 /-! ### non-vacuity: a concrete pipeline (two stacked aggregates, one with slicing disabled; a default,
 a replace-mode and a `within_values` cross slicer; a stream in which slice `a = 2` first occurs in the third
 batch and the second batch is empty) satisfies the hypotheses, runs, and reports what the theorems say
@@ -556,5 +640,14 @@ example : (aggResult exPipeline exStream).toOption.map (fun res => (AList.keys r
 /-- empty stream -/
 example : (aggResult exPipeline []).toOption.map AList.keys
     = some [⟨"o", SliceKey.none⟩, ⟨"p", SliceKey.none⟩, ⟨"q", SliceKey.none⟩] := by decide
+
+/-- carried states: the example stream consumed in two steps / batch by batch through `update_state` reports the
+one-pass result; the state handed over after the first batch already holds per-slice entries -/
+example : carriedResult exPipeline [exStream.take 1, exStream.drop 1] = aggResult exPipeline exStream := by
+  rw [C02_carried_state]; rfl
+example : ((run exPipeline (exStream.take 1)).toOption.map fun st => (AList.keys st).filter (·.slice ≠ SliceKey.none))
+    = some [⟨["o"], ⟨["a"], [1]⟩⟩, ⟨["o"], ⟨["a0"], [1]⟩⟩, ⟨["o"], ⟨["a", "b"], [1, 0]⟩⟩] := by decide
+example : (carriedResult exPipeline [exStream.take 1, exStream.drop 1]).toOption.bind (AList.get? · ⟨"o", ⟨["a"], [1]⟩⟩)
+    = some (.one (.nums [(19, 1), (3, 1)])) := by decide
 
 end MlModel.C02
